@@ -47,11 +47,22 @@ CHECKS = {
          'NoError results must be closed 2-manifolds with finite numbers).',
          'AddressSanitizer/UBSan are the memory-safety witnesses; polygon/point-set/OBJ/numeric-argument classes are covered by other checks',
          'TLC-enumerated abstract inputs (fault classes) executed on the real code under sanitizers', '5 C09'),
+ 'C10': ('model_checking', 'Poly.tla states C10 on integer-lattice polygon sets with exact integer predicates; TLC explores all simple lattice paths/polygons of the bound and the '
+         'hole/nesting/multi-outer/star/duplicate-vertex/arbitrary families, checking generator/predicate agreement, Pick\'s theorem, satisfiability via a reference ear clipper and rejection of '
+         'corrupted triangulations. Every generated set is executed on the real TriangulateIdx/Triangulate/PolygonTriangulator under exact similarity views and a watchdog; outputs are validated by an '
+         'integer transcription of ValidTriangulation, and a sample of recorded outputs is validated by TLC itself (Poly_Trace).',
+         'C++ transcription of the predicate (cross-checked against the spec per case); CCW-within-eps = cross >= 0 on exact views; ASan/UBSan as memory oracle',
+         'TLA+/TLC state-graph enumeration + replay + trace validation', '5 C10'),
  'C11': ('model_checking', 'Xsec.tla: exact integer winding numbers of pixel centres for arbitrary lattice/half-lattice contours under Positive/EvenOdd, set-algebra '
          'Booleans/BatchBoolean and lattice transforms, with the oracle\'s own soundness invariants and the set laws checked by TLC on every state; every contour set of <=2 catalogue '
          'contours and every small program enumerated exhaustively (plus seeded simulation and >1024-edge staircases). Every program is executed through the real CrossSection API and every '
          'object judged by an independent crossing-number oracle on ToPolygons(), Area(), an exact-arithmetic Regularized predicate, lattice-ness and operand-order independence.',
          'lattice / half-lattice regime; drive/xsec.h oracles; hand binding of generators to API calls', 'explicit TLA+ specification + TLC (BFS and -simulate) + replay binding', '5 C11'),
+ 'C12': ('model_checking', 'Xoff.tla (on Xsec.tla): TLC enumerates lattice regions, point sets and rings, checks the consistency of the exact integer oracles (Chebyshev dilation/erosion for miter joins, '
+         'rational chordal bands for round joins, generic containment/limit clauses for every join type, convex hull, edge-connected components, the Simplify relation) and prints every case with the '
+         'demanded pixel sets, hull cycles, components and tolerances; the driver executes CrossSection::Offset/Hull/Decompose/Simplify on each and judges with independent winding and integer predicates.',
+         'Xsec.tla winding oracle, CosLB table, drive/xsec.h Windings/Regularized; integer deltas -2..2 on small lattice regions; F-C12-1 masks double-inversion failures',
+         'TLA+ spec as oracle and generator, replay against the real API', '5 C12'),
  'C13': ('model_checking', 'ParScan/ParReduce.tla: the oneTBB scan/reduce protocols over transcriptions of ScanBody, CopyIfScanBody, SortedRange, all protocol '
          'instances enumerated and checked equal to the sequential algorithm (regression variants refuted); UnionFind/HashTable.tla: one step per '
          'atomic access, all interleavings of 2-3 threads checked. Every protocol instance is executed call for call on the real bodies, every '
